@@ -1,0 +1,56 @@
+//go:build verif
+
+package tally
+
+import (
+	"io"
+	"time"
+
+	"github.com/uber-go/tally/v4/internal/verifhook"
+)
+
+// VerifSetHook installs the schedule-point hook and the observation hook of
+// the verification harness (nil uninstalls).
+func VerifSetHook(
+	h func(point string, enabled func() bool, a, b int64),
+	l func(point string, a, b int64, s string),
+) {
+	verifhook.H = h
+	verifhook.L = l
+}
+
+// VerifNewRootScope is NewRootScope with an explicit registry shard count.
+func VerifNewRootScope(opts ScopeOptions, interval time.Duration, shards uint) (Scope, io.Closer) {
+	opts.registryShardCount = shards
+	s := newRootScope(opts, interval)
+	return s, s
+}
+
+// VerifNewTestScope is NewTestScope with an explicit registry shard count.
+func VerifNewTestScope(prefix string, tags map[string]string, shards uint) TestScope {
+	return newRootScope(ScopeOptions{
+		Prefix:             prefix,
+		Tags:               tags,
+		testScope:          true,
+		registryShardCount: shards,
+	}, 0)
+}
+
+// VerifReportOnce runs one report pass (registry report + reporter flush) on
+// the root scope s, exactly as the report loop does.
+func VerifReportOnce(s Scope) {
+	s.(*scope).reportRegistry()
+}
+
+// VerifSetNow replaces the package clock used by stopwatches.
+func VerifSetNow(f func() time.Time) {
+	if f == nil {
+		f = time.Now
+	}
+	globalNow = f
+}
+
+// VerifBucketsIdentity exposes the bucket cache identity of a bucket set.
+func VerifBucketsIdentity(b Buckets) uint64 {
+	return getBucketsIdentity(b)
+}
